@@ -1,0 +1,26 @@
+/*
+ * Verification hooks (see br_verif.h). This file is not part of the
+ * library's own build (it is not listed in mk/Rules.mk) and is empty
+ * unless BR_VERIF is defined.
+ */
+#ifdef BR_VERIF
+#include <stdio.h>
+#include <stdlib.h>
+#include "inner.h"
+
+int br_verif_seeder_mode = 0;
+unsigned char br_verif_seed[32];
+unsigned long br_verif_seeder_calls = 0;
+unsigned long long br_verif_t0_steps = 0;
+
+void
+br_verif_fail(const char *what, const char *vm, long a, long b)
+{
+	fflush(stdout);
+	fprintf(stderr, "BR_VERIF_FAIL %s vm=%s a=%ld b=%ld\n", what, vm, a, b);
+	fflush(stderr);
+	abort();
+}
+#else
+typedef int br_verif_unused_;
+#endif
